@@ -11,7 +11,7 @@ LEVEL = "translation_validation"
 RULE = ("Packages P from (1) Hypothesis-generated designs exported from a single top, (2) the examples / built-in generator corpus, "
         "(3) a parameter-space sweep: every primitive and dict-typed external module with generated values (prefixed numbers with "
         "every prefix and long mantissas, literals, ints, floats, strings), external modules with every SpiceType, port direction "
-        "and width, module literals. Each P is imported with from_proto, the imported modules that no other imported module "
+        "and width, module literals (incl. texts with surrounding whitespace and arbitrary short text). Each P is imported with from_proto, the imported modules that no other imported module "
         "instantiates are re-exported in package order, and the result must equal P field by field. Non-trivial = P has a slice or "
         "concat target, a prefixed or literal parameter, or an external module; distinct by package hash.")
 ASSUME = ["protobuf message equality is the comparison", "tops are recovered as the imported modules nobody instantiates, in package order",
@@ -268,7 +268,10 @@ def shard(idx, n, tier):
     pcase = st.fixed_dictionaries({"insts": inst_lists,
                                    "ext": st.lists(ext_shape, min_size=0, max_size=2),
                                    "earlier": st.one_of(st.just([]), st.lists(ext_shape, min_size=1, max_size=2)),
-                                   "literals": st.lists(st.sampled_from([".include 'x.sp'", "* comment", "", "a b c", ".param k=1"]), max_size=3)})
+                                   "literals": st.lists(st.one_of(
+                                       st.sampled_from([".include 'x.sp'", "* comment", "", "a b c", ".param k=1", "  .option post ", "\t* tab",
+                                                        "two\nlines\n", " ", "* trailing  "]),
+                                       st.text(max_size=10)), max_size=3)})
 
     @hypothesis.seed(env.subseed(PID, "p", idx))
     @settings(max_examples=nex, database=None, deadline=None, derandomize=False,
